@@ -242,4 +242,38 @@ theorem message_roundtrip_of_tokens (opt : POpt) (addr : Bytes) (args : List Cel
     omega
 
 
+theorem convertToRange_small (opt : POpt) (arg : List Cell) (size : Nat) (h : size < 5) :
+    convertToRange opt arg size = .ok none := by
+  unfold convertToRange
+  have : size < rangeMin := h
+  simp [this, pure, Except.pure]
+
+/-- the round trip of a single scalar argument whose token is only known to be good at the end of a text -/
+theorem single_roundtrip_of_end (opt : POpt) (c : Cell) (hsc : c.isScalar = true)
+    (hp : ∀ (fuel : Nat) (more : List Cell) (prev : Option Cell) (st : PSt), ∃ (t : Bytes) (cols' : Int),
+      printArgVal (fuel + 1) opt (c :: more) prev st = .ok (⟨st.out ++ t, cols'⟩, t.length) ∧ TokEnd t c) :
+    ∃ (st : PSt) (ret : Nat),
+      printArgVals opt [c] ⟨[], 0⟩ = .ok (st, ret) ∧ ret = st.out.length ∧
+      countPrintedArgVals st.out = .ok 1 ∧ scanArgVals st.out 1 = .ok (st.out.length, [c]) := by
+  obtain ⟨t, cols', hprint, hend⟩ := hp (([c] : List Cell).length + 2) [] none ⟨[], 0⟩
+  obtain ⟨pre1, cols1, awl1, hpre1, hstep⟩ :=
+    printLoop_step opt [c] c [] 0 1 ⟨[], 0⟩ 0 (-1) 0 rfl (by simp) hsc t cols' (by simpa using hprint)
+      (convertToRange_small opt _ _ (by simp)) (Or.inl rfl)
+  have hpre0 : pre1 = [] := by
+    rcases hpre1 with h | ⟨base, h1, _⟩
+    · exact h
+    · simp at h1
+  subst hpre0
+  have htt : TokText [c] t := TokText.one t c hend hsc
+  refine ⟨⟨t, cols1⟩, t.length, ?_, rfl, ?_, ?_⟩
+  · unfold printArgVals
+    simp only [List.length_singleton, List.length_nil, Int.natCast_zero, Int.zero_sub, ne_eq,
+      not_true_eq_false, ↓reduceIte] at hstep ⊢
+    rw [show (1 : Nat) + 1 = 1 + 1 from rfl, hstep]
+    simp [printArgValsLoop, pure, Except.pure]
+  · simpa using countPrintedArgVals_tokText htt
+  · unfold scanArgVals
+    have := scanLoop_tokText htt 2 1 0 [] 0 (by simp) (by simp)
+    simpa using this
+
 end Rtosc.Pretty
